@@ -131,10 +131,12 @@ Proof. intros. apply gen_new_spec; assumption. Qed.
 
 (* 5. sizes *)
 Theorem gen_sizes : forall n, nd_isgroup n = false ->
+  0 <= nd_dwc n < 65536 -> 0 <= nd_pc n < 65536 ->
   ni_new (gen_node n) = Some (8 * nd_dwc n, nd_pc n) /\
   ni_newroot (gen_node n) = Some (8 * nd_dwc n, nd_pc n) /\
   ni_list (gen_node n) = Some (8 * nd_dwc n, nd_pc n) /\
-  ni_typeid (gen_node n) = Some (nd_id n).
+  ni_typeid (gen_node n) = Some (nd_id n) /\
+  0 <= 8 * nd_dwc n <= 524280 /\ (8192 <= nd_dwc n -> 65536 <= fst (gen_objsize n)).
 Proof. exact gen_node_size. Qed.
 
 Theorem gen_new_struct_fits : forall f st n v, field_wf f -> value_ok (fd_kind f) v ->
